@@ -119,6 +119,8 @@ def _havoc(key):
 
 ALL_GHOST = [_havoc("rmu")] + [_havoc(k) for k in WH] + [("ghost", "rmu_iadd", lambda st: None)]
 GATE = z3.Bool("rmc_trace_clauses")
+from pyvc import solve as _solve  # noqa: E402
+_solve.GATES.add("rmc_trace_clauses")      # see pyvc/solve.py gate_filter
 # Every clause about the ghost trace is stated as `GATE -> clause` with GATE a FREE Boolean constant that nothing constrains: the
 # obligations are proved for both of its values, in particular for True (the lemmas take the post-condition with GATE = True).
 # Purpose: in the obligations that restate the no-context post-condition the solver may leave the trace quantifiers inactive.
